@@ -112,14 +112,26 @@ def body_kernel(case):
         seen.append((lat, lon))
         return hc
 
+    prev = case.get("previous")
+    if prev is not None:
+        # the kernel object has evaluated ANOTHER shower before (as it does inside a batch): low start, cloud top inside,
+        # above or below its track - whatever that call left on the object must not reach this one
+        pb, pa, ple, ptop = prev
+        with cut("run(an earlier event on the same kernel object)"), quiet():
+            k.run(pb, pa, energy(ple), 0.5, 0.5, None if ptop is None else (lambda la, lo: ptop))
     with cut("run(no cloud)"):
         d0, a0 = run_prod(k, b, a, e, None)
+    if prev is not None:
+        with cut("run(an earlier event on the same kernel object)"), quiet():
+            k.run(pb, pa, energy(ple), 0.5, 0.5, None if ptop is None else (lambda la, lo: ptop))
     with cut(what):
         with quiet():
             d, ang = k.run(b, a, e, 0.25, -1.5, cloudf)
         d, ang = float(d), float(ang)
     require(len(seen) == 1 and seen[0] == (0.25, -1.5), f"the cloud model was queried with {seen}, expected once with the event's own (lat, long)")
     labels = {dtype}
+    if prev is not None:
+        labels.add("kernel_object_used_before")
     if det < 65.0:
         labels.add("detector_inside_atmosphere")
     if hc <= zs[0]:
@@ -357,6 +369,54 @@ def body_site(case):
     return {"site"} | ({"mixed_range"} if (~inside).any() else set()) | ({"narrow_spread"} if spread and n >= 2 else set())
 
 
+def body_eas_map(case):
+    """Through EAS.__call__ with the package's OWN cloud model object (the pressure map of a month, a uniform deck): a
+    batch in which events outside the decay-altitude range are mixed with events at sites of different cloud tops gives,
+    event by event, what the kernel gives for that event alone with the cloud top of ITS site."""
+    import dask
+
+    from nuspacesim.config import NssConfig
+    from nuspacesim.simulation.atmosphere.clouds import CloudTopHeight
+    from nuspacesim.simulation.eas_optical.eas import EAS
+
+    ev = case["events"]
+    beta = np.array([e[0] for e in ev])
+    alt = np.array([e[1] for e in ev])
+    E = np.array([energy(e[2]) for e in ev])
+    lat = np.array([e[3] for e in ev])
+    lon = np.array([e[4] for e in ev])
+    cm = case["cloud"]
+    conf = NssConfig(detector={"optical": {"telescope_effective_area": 1.0, "quantum_efficiency": 1.0, "photo_electron_threshold": 1e300}}, simulation={"cloud_model": cm})
+    with cut("CloudTopHeight(config)"):
+        cloud = CloudTopHeight(conf)
+    eas = EAS(conf)
+    with dask.config.set(scheduler="synchronous"), quiet():
+        with cut("EAS.__call__(cloudf=CloudTopHeight(config))"):
+            pe, _ = eas(beta, alt, E, lat, lon, cloudf=cloud)
+    pe = np.asarray(pe, dtype=float)
+    inside = (alt >= 0) & (alt <= 20)
+    require(bool(np.all(pe[~inside] == 0.0)), "events outside [0, 20] km give photo-electrons")
+    k = kernel(525.0, "float32")
+    tops = []
+    for i in np.where(inside)[0]:
+        with cut("CloudTopHeight(lat, long) for one event"):
+            top = float(cloud(float(lat[i]), float(lon[i])))
+        tops.append(round(top, 6))
+        with quiet():
+            d1, _ = k.run(beta[i], alt[i], E[i], lat[i], lon[i], lambda la, lo: top)
+        # (EAS rescales the kernel's value by the squared distance ratio to its detector altitude: 1 + O(1e-6) at 525 km)
+        require(
+            abs(float(d1) - pe[i]) <= 1e-5 * abs(float(d1)),
+            f"event {i} of a batch of {len(ev)} (decay altitudes {alt.tolist()}, cloud model {cm}): the batch gives {pe[i]!r} photo-electrons per m^2; the kernel for this event alone with the cloud top of its own site ({top!r} km at lat {lat[i]!r}, long {lon[i]!r}) gives {float(d1)!r}",
+        )
+    labels = {cm["id"]}
+    if (~inside).any() and inside.any() and int(np.argmax(~inside)) < int(np.where(inside)[0][-1]):
+        labels.add("skipped_event_before_a_kept_one")
+    if len(set(tops)) >= 2:
+        labels.add("different_cloud_tops_in_batch")
+    return labels
+
+
 SUBCHECKS = [
     SubCheck(
         "kernel_cloud",
@@ -370,6 +430,7 @@ SUBCHECKS = [
                 "dtype": st.sampled_from(["float32", "float32", "float64"]),
                 # incl. detectors BELOW some cloud tops (a balloon under an infinitely high cloud still sees nothing)
                 "det": st.sampled_from([525.0, 525.0, 33.0, 25.0, 2000.0, 400.0]),
+                "previous": st.one_of(st.none(), st.tuples(st.sampled_from([math.radians(5.0), math.radians(20.0), math.radians(40.0)]), st.sampled_from([0.5, 1.0, 3.0, 8.0]), st.sampled_from([0.0, 1.0, 2.0]), st.sampled_from([None, 2.0, 4.0, 10.0, 30.0, 100.0, -math.inf])).map(list)),
             }
         ),
         body_kernel,
@@ -407,6 +468,23 @@ SUBCHECKS = [
         shrink=False,
     ),
 ]
+
+SUBCHECKS.append(
+    SubCheck(
+        "eas_batch_own_cloud_model",
+        st.fixed_dictionaries(
+            {
+                "events": st.lists(st.tuples(st.sampled_from([math.radians(5.0), math.radians(12.0), math.radians(30.0)]), st.one_of(st.floats(0.5, 6.0), st.sampled_from([-1.0, 25.0, 20.5, -0.001, 2.0])), st.sampled_from([0.0, 1.0, 2.0]), lat_st, lon_st).map(list), min_size=2, max_size=7),
+                "cloud": st.one_of(st.integers(1, 12).map(lambda m: {"id": "pressure_map", "month": m}), st.integers(1, 12).map(lambda m: {"id": "pressure_map", "month": m}), st.sampled_from([{"id": "monocloud", "altitude": 4.0}, {"id": "no_cloud"}])),
+            }
+        ),
+        body_eas_map,
+        lambda labels: "skipped_event_before_a_kept_one" in labels and "different_cloud_tops_in_batch" in labels,
+        {"quick": 60, "thorough": 2000},
+        doc="EAS.__call__ with the package's own cloud model object (pressure map of a month / uniform deck): batches mixing out-of-range events with events at sites of different cloud tops == the kernel for each event alone with the cloud top of its own site (relative 1e-5: the stage's distance rescaling)",
+        shrink=False,
+    )
+)
 
 # the same oracles in interpreters started with -O / -OO (see core.env_variant)
 from ..core import env_variant  # noqa: E402
